@@ -166,7 +166,14 @@ def install_patches() -> None:
             if r is None:
                 return real_ad(fun, x0, *a, **k)
             n0 = len(r.calls)
-            g = real_ad(fun, x0, *a, **k)
+            try:
+                g = real_ad(fun, x0, *a, **k)
+            except BaseException:
+                # a stencil evaluation raised: record the stencil evaluated so far (the failing
+                # point included) so that the model requests the same points
+                pts = [p for kd, p in r.calls[n0:] if kd == "F"]
+                r.FD.append((pkey(x0), fhex(k.get("f0")), pts, vhex([float("nan")] * len(np.atleast_1d(x0)))))
+                raise
             pts = [p for kd, p in r.calls[n0:] if kd == "F"]
             r.FD.append((pkey(x0), fhex(k.get("f0")), pts, vhex(g)))
             # contract of the differencing routine: stencil inside the bounds it was given
